@@ -102,7 +102,28 @@ fn case_run(src: &mut Src, st: &mut Stats, _env: &Env) -> CaseResult {
         let doc = json!({"pad": "p".repeat(pad), "rows": rows, "s": long_s, "strs": ["a\nb", long_s.clone()], "nums": [1, 2]});
         (doc.to_string().into_bytes(), true)
     } else {
-        match src.below(8) {
+        match src.below(10) {
+        8 | 9 => {
+            // a document with line terminators (or other blanks) inserted at generated places:
+            // between tokens they are blanks, inside a string, number or keyword they make the
+            // text invalid (the library, called on the same bytes, says which)
+            let t = if src.flip() { schema_doc(src).to_json() } else { src.pick(&["\"ab cd\"", "12", "[1, 2]", "true", "{\"a b\": null}", "\"a\\nb\"", "1.5e3", "[\"x\", -1]"]).to_string() };
+            let mut out = String::new();
+            let n_chars = t.chars().count().max(1);
+            let k = 1 + src.below(3);
+            let at: Vec<usize> = (0..k).map(|_| src.below(n_chars + 1)).collect();
+            let nl = *src.pick(&["\n", "\r\n", "\r", "\n\n", "\t", " "]);
+            for (i, c) in t.chars().enumerate() {
+                if at.contains(&i) {
+                    out.push_str(nl);
+                }
+                out.push(c);
+            }
+            if at.contains(&n_chars) {
+                out.push_str(nl);
+            }
+            (out.into_bytes(), false)
+        }
         0 | 1 | 2 => (schema_doc(src).to_json().into_bytes(), true),
         3 => (gen_doc(src, &DocOpts::default()).to_json().into_bytes(), true),
         4 => {
